@@ -10,6 +10,7 @@
   library codecs, exercised by the direct oracle on the real code, not modelled.
 -/
 import SSEPyVerif.Model.Schemes.Wire
+import SSEPyVerif.Generated.WireLayout
 import SSEPyVerif.Proofs.Schemes.ChainCfg
 import SSEPyVerif.Proofs.Schemes.ANSS16Shape
 import SSEPyVerif.Proofs.Schemes.SSE1Complete
@@ -265,5 +266,100 @@ theorem SSE1.token_roundtrip (raw : RawCfg) (cfg : SSE1Cfg) (hcfg : SSE1.cfgBuil
       have le := (prf_ok cfg.prfF lv.hmac (by rw [hu.fHash]; exact hl.hmac_len) (by rw [hu.fHash]; decide) K2 _ eta he).1
       have : cfg.prfF.outputLength.toNat = cfg.k.toNat + cfg.log2sBytes := by rw [hu.fOut]; have := hu.kpos; omega
       simp [SSE1Cfg.wire, lg, le, this]
+
+
+/-! ### the wire model IS what `structures.py` does (layouts regenerated from the source on every run)
+
+  `Generated/WireLayout.lean` holds, per scheme and object, the length `deserialize` insists on and the widths it cuts at,
+  translated from the source as functions of the configuration's fields.  For EVERY configuration they coincide with the
+  widths of the wire model the theorems above are about (`*.wire`), the checked length is the sum of the cut widths (so a
+  parse that passes the check consumes exactly the input), `serialize` joins as many fields as `deserialize` cuts, and the
+  objects the model treats as pickled are pickled in the source.  A changed offset, a swapped field, a check against another
+  parameter changes the generated file and these theorems stop checking. -/
+
+open SSEPy.Generated.Wire
+
+theorem PiBas.wire_is_source (c : ChainCfg) :
+    (PiBas_key_widths c.field).map Int.toNat = c.wire.key ∧ (PiBas_token_widths c.field).map Int.toNat = c.wire.token.getD [] ∧
+    PiBas_key_check c.field = (PiBas_key_widths c.field).sum ∧ PiBas_token_check c.field = (PiBas_token_widths c.field).sum ∧
+    PiBas_key_fields.length = (PiBas_key_widths c.field).length ∧ PiBas_token_fields.length = (PiBas_token_widths c.field).length := by
+  refine ⟨?_, ?_, ?_, ?_, rfl, rfl⟩ <;>
+    simp [PiBas_key_widths, PiBas_token_widths, PiBas_key_check, PiBas_token_check, ChainCfg.field, ChainCfg.wire] <;> omega
+
+theorem PiPack.wire_is_source (c : ChainCfg) :
+    (PiPack_key_widths c.field).map Int.toNat = c.wire.key ∧ (PiPack_token_widths c.field).map Int.toNat = c.wire.token.getD [] ∧
+    PiPack_key_check c.field = (PiPack_key_widths c.field).sum ∧ PiPack_token_check c.field = (PiPack_token_widths c.field).sum ∧
+    PiPack_key_fields.length = (PiPack_key_widths c.field).length ∧ PiPack_token_fields.length = (PiPack_token_widths c.field).length := by
+  refine ⟨?_, ?_, ?_, ?_, rfl, rfl⟩ <;>
+    simp [PiPack_key_widths, PiPack_token_widths, PiPack_key_check, PiPack_token_check, ChainCfg.field, ChainCfg.wire] <;> omega
+
+theorem PiPtr.wire_is_source (c : PiPtrCfg) :
+    (PiPtr_key_widths c.field).map Int.toNat = c.wire.key ∧ (PiPtr_token_widths c.field).map Int.toNat = c.wire.token.getD [] ∧
+    PiPtr_key_check c.field = (PiPtr_key_widths c.field).sum ∧ PiPtr_token_check c.field = (PiPtr_token_widths c.field).sum ∧
+    PiPtr_key_fields.length = (PiPtr_key_widths c.field).length ∧ PiPtr_token_fields.length = (PiPtr_token_widths c.field).length := by
+  refine ⟨?_, ?_, ?_, ?_, rfl, rfl⟩ <;>
+    simp [PiPtr_key_widths, PiPtr_token_widths, PiPtr_key_check, PiPtr_token_check, PiPtrCfg.field, PiPtrCfg.wire] <;> omega
+
+theorem Pi2Lev.wire_is_source (c : Pi2LevCfg) :
+    (Pi2Lev_key_widths c.field).map Int.toNat = c.wire.key ∧ (Pi2Lev_token_widths c.field).map Int.toNat = c.wire.token.getD [] ∧
+    Pi2Lev_key_check c.field = (Pi2Lev_key_widths c.field).sum ∧ Pi2Lev_token_check c.field = (Pi2Lev_token_widths c.field).sum ∧
+    Pi2Lev_key_fields.length = (Pi2Lev_key_widths c.field).length ∧ Pi2Lev_token_fields.length = (Pi2Lev_token_widths c.field).length := by
+  refine ⟨?_, ?_, ?_, ?_, rfl, rfl⟩ <;>
+    simp [Pi2Lev_key_widths, Pi2Lev_token_widths, Pi2Lev_key_check, Pi2Lev_token_check, Pi2LevCfg.field, Pi2LevCfg.wire] <;> omega
+
+theorem CT14.wire_is_source (c : CT14Cfg) :
+    (CT14_key_widths c.field).map Int.toNat = c.wire.key ∧ (CT14_token_widths c.field).map Int.toNat = c.wire.token.getD [] ∧
+    CT14_key_check c.field = (CT14_key_widths c.field).sum ∧ CT14_token_check c.field = (CT14_token_widths c.field).sum ∧
+    CT14_key_fields.length = (CT14_key_widths c.field).length ∧ CT14_token_fields.length = (CT14_token_widths c.field).length := by
+  refine ⟨?_, ?_, ?_, ?_, rfl, rfl⟩ <;>
+    simp [CT14_key_widths, CT14_token_widths, CT14_key_check, CT14_token_check, CT14Cfg.field, CT14Cfg.wire] <;> omega
+
+theorem ANSS16.wire_is_source (c : ANSSCfg) :
+    (ANSS16_key_widths c.field).map Int.toNat = c.wire.key ∧ (ANSS16_token_widths c.field).map Int.toNat = c.wire.token.getD [] ∧
+    ANSS16_key_check c.field = (ANSS16_key_widths c.field).sum ∧ ANSS16_token_check c.field = (ANSS16_token_widths c.field).sum ∧
+    ANSS16_key_fields.length = (ANSS16_key_widths c.field).length ∧ ANSS16_token_fields.length = (ANSS16_token_widths c.field).length := by
+  refine ⟨?_, ?_, ?_, ?_, rfl, rfl⟩ <;>
+    simp [ANSS16_key_widths, ANSS16_token_widths, ANSS16_key_check, ANSS16_token_check, ANSSCfg.field, ANSSCfg.wire] <;> omega
+
+/-- SSE-1: the key parser cuts `len / param_k` pieces of `param_k` bytes — four, for a positive key length -/
+theorem SSE1.wire_is_source (c : SSE1Cfg) (hk : 0 < c.k) :
+    (SSE1_key_widths c.field).map Int.toNat = c.wire.key ∧ (SSE1_token_widths c.field).map Int.toNat = c.wire.token.getD [] ∧
+    SSE1_key_check c.field = (SSE1_key_widths c.field).sum ∧ SSE1_token_check c.field = (SSE1_token_widths c.field).sum ∧
+    SSE1_key_fields.length = (SSE1_key_widths c.field).length ∧ SSE1_token_fields.length = (SSE1_token_widths c.field).length := by
+  have h4 : ((4 : Int) * c.k / c.k).toNat = 4 := by
+    rw [Int.mul_ediv_cancel _ (by omega)]; rfl
+  refine ⟨?_, ?_, ?_, ?_, ?_, rfl⟩
+  · simp [SSE1_key_widths, SSE1Cfg.field, SSE1Cfg.wire, h4, List.replicate]
+  · simp [SSE1_token_widths, SSE1Cfg.field, SSE1Cfg.wire]; omega
+  · simp [SSE1_key_widths, SSE1_key_check, SSE1Cfg.field, h4, List.replicate]; omega
+  · simp [SSE1_token_widths, SSE1_token_check, SSE1Cfg.field]; omega
+  · simp [SSE1_key_widths, SSE1_key_fields, SSE1Cfg.field, h4]
+
+/-- SSE-2: the key is two halves of `param_k` bytes; the token is pickled in the source as in the model -/
+theorem SSE2.wire_is_source (c : SSE2Cfg) (hk : 0 < c.k) :
+    (SSE2_key_widths c.field).map Int.toNat = c.wire.key ∧ SSE2_key_check c.field = (SSE2_key_widths c.field).sum ∧
+    SSE2_key_fields.length = (SSE2_key_widths c.field).length ∧ SSE2_token_pickled = true ∧ c.wire.token = none := by
+  have h2 : ((2 : Int) * c.k / c.k).toNat = 2 := by
+    rw [Int.mul_ediv_cancel _ (by omega)]; rfl
+  refine ⟨?_, ?_, ?_, rfl, rfl⟩
+  · simp [SSE2_key_widths, SSE2Cfg.field, SSE2Cfg.wire, h2, List.replicate]
+  · simp [SSE2_key_widths, SSE2_key_check, SSE2Cfg.field, h2, List.replicate]; omega
+  · simp [SSE2_key_widths, SSE2_key_fields, SSE2Cfg.field, h2]
+
+/-- DP17: three keys of `param_lambda` bytes; the token is pickled in the source as in the model -/
+theorem DP17.wire_is_source (c : DP17Cfg) :
+    (DP17_key_widths c.field).map Int.toNat = c.wire.key ∧ DP17_key_check c.field = (DP17_key_widths c.field).sum ∧
+    DP17_key_fields.length = (DP17_key_widths c.field).length ∧ DP17_token_pickled = true ∧ c.wire.token = none := by
+  refine ⟨?_, ?_, rfl, rfl, rfl⟩
+  · simp [DP17_key_widths, DP17Cfg.field, DP17Cfg.wire, List.replicate]
+  · simp [DP17_key_widths, DP17_key_check, DP17Cfg.field, List.replicate]; omega
+
+/-- none of the seven concatenation formats is pickled in the source -/
+theorem concatenation_formats_are_not_pickled :
+    PiBas_key_pickled = false ∧ PiBas_token_pickled = false ∧ PiPack_key_pickled = false ∧ PiPack_token_pickled = false ∧
+    PiPtr_key_pickled = false ∧ PiPtr_token_pickled = false ∧ Pi2Lev_key_pickled = false ∧ Pi2Lev_token_pickled = false ∧
+    CT14_key_pickled = false ∧ CT14_token_pickled = false ∧ ANSS16_key_pickled = false ∧ ANSS16_token_pickled = false ∧
+    SSE1_key_pickled = false ∧ SSE1_token_pickled = false ∧ SSE2_key_pickled = false ∧ DP17_key_pickled = false := by
+  decide
 
 end SSEPy.C03
